@@ -304,7 +304,8 @@ func init() {
 		{Name: "one-option-apart", Harness: "pkg/generator:HarnessC16", Layer: "L3",
 			Desc:   "one symbolic schema (shape grammar plus anyOf/allOf of $ref'd definitions) generated twice under configurations differing in exactly one option; the emitted files are compared at declaration level (hole identifiers by their terms): --only-models = same type declarations and no functions/variables; --tags = equal after erasing struct tags; without --extra-imports = the full output minus YAML methods/imports with identical JSON methods",
 			Bounds: "options --only-models, --tags (json only), --extra-imports; shapes G(1,1); --capitalization / --struct-name-from-title / --schema-root-type (identifier renaming) are not covered here; the comparison is a concrete per-path oracle on the symbolic output (the solver contributes the path partition)",
-			Quick:  map[string]int{"GRID": 2, "GRIDMAG": 36, "NUMSHAPES": 3, "STRSHAPES": 3, "ARRSHAPES": 3, "DEFAULTS": 1},
+			Quick:  map[string]int{"GRID": 2, "GRIDMAG": 36, "NUMSHAPES": 2, "STRSHAPES": 2, "ARRSHAPES": 2, "DEFAULTS": 1},
+			Thor:   map[string]int{"GRID": 2, "GRIDMAG": 36, "NUMSHAPES": 4, "STRSHAPES": 4, "ARRSHAPES": 3, "DEFAULTS": 1, "DEPTH": 2},
 			Panic:  "inconclusive"},
 		{Name: "cli/flag-wiring", Harness: ".:HarnessCLIFlagWiring", Layer: "L3",
 			Desc:   "main.go's Run closure under all 128 combinations of --extra-imports, --only-models, --struct-name-from-title, --min-sized-ints, a --capitalization, a --tags list and a --schema-root-type mapping: the bytes on stdout equal what the library emits for the generator.Config those flags denote (each flag reaches the field it names and no other)",
